@@ -222,6 +222,10 @@ def f6(src, st):
         seen = []; 
         for f_ in order:
             if f_ not in seen: seen.append(f_)
+        if not conds or not any(i.isdigit() for i, _ in removes):
+            # the positional-remove pattern is not there (the decoder was rewritten): nothing to translate for this type —
+            # its facts fall back to the pinned ones (see fill_from_pinned) and the type is decided by the correspondence alone
+            ok = False; st['F6:' + ty] = 'pattern not found'; continue
         shapes.append((ty, joiner, conds, removes, seen))
     st['F6'] = 'ok' if ok and shapes else 'degraded'
     return shapes
@@ -420,7 +424,41 @@ def emit(facts):
     L += ['', 'end Coset.Gen', '']
     write('Inventory.lean', '\n'.join(L))
 
+PINNED = os.path.join(os.path.dirname(os.path.abspath(__file__)), '..', 'pinned', 'CosetGen')
+DEGRADED = {}
+
+def def_blocks(text):
+    """{name: block text} for every top-level `def` of a generated file (a block = the def line and its continuation lines)"""
+    out = {}; cur = None; buf = []
+    for line in text.split('\n'):
+        m = re.match(r'def\s+([\w\.]+)', line)
+        if m:
+            if cur: out[cur] = '\n'.join(buf)
+            cur = m.group(1); buf = [line]
+        elif cur and (line.startswith(' ') or line.startswith('\t')) and line.strip():
+            buf.append(line)
+        else:
+            if cur: out[cur] = '\n'.join(buf)
+            cur = None; buf = []
+    if cur: out[cur] = '\n'.join(buf)
+    return out
+
+def fill_from_pinned(name, text):
+    """a fact whose syntactic pattern was not found in the source (a refactor) is taken from the facts of the unchanged tree, so that the
+    model still builds and the correspondence decides; found-but-different facts are never touched."""
+    try: pinned = open(os.path.join(PINNED, name)).read()
+    except FileNotFoundError: return text
+    have = def_blocks(text); want = def_blocks(pinned)
+    missing = [n for n in want if n not in have]
+    if not missing: return text
+    DEGRADED[name] = missing
+    add = ['', '/-! pattern not found in the current source: pinned facts (of the unchanged tree) used for the following definitions -/'] + [want[n] for n in missing]
+    marker = '\nend Coset.Gen'
+    i = text.rfind(marker)
+    return text[:i] + '\n' + '\n'.join(add) + '\n' + text[i:]
+
 def write(name, text):
+    text = fill_from_pinned(name, text)
     p = os.path.join(OUT, name)
     try:
         if open(p).read() == text: return
@@ -433,7 +471,9 @@ def run():
     src = load()
     facts = {'F1': f1(src, st), 'F2': f2(src, st), 'F3': f3(src, st), 'F4': f4(src, st), 'F5': f5(src, st),
              'F6': f6(src, st), 'F7': f7(src, st), 'F8': f8(src, st), 'F9': f9(src, st), 'F10': f10(src, st)}
+    DEGRADED.clear()
     emit(facts)
+    for f, names in DEGRADED.items(): st['pinned-fallback:' + f] = names
     return st, facts
 
 if __name__ == '__main__':
